@@ -82,11 +82,17 @@ func buildIncremental(j *Job, todo []*Obligation, timeoutMs int, dropQ bool) str
 	sc.Raw(preamble(timeoutMs))
 	asserted := 0
 	ins := inputTerms(j)
+	var skFacts []int
 	for i, o := range todo {
 		for asserted < o.NFact && asserted < len(j.Facts) {
-			sc.Assert(j.Facts[asserted])
+			if hasSkolem(j, j.Facts[asserted]) {
+				skFacts = append(skFacts, asserted) // asserted inside the scope of the obligation it was made for
+			} else {
+				sc.Assert(j.Facts[asserted])
+			}
 			asserted++
 		}
+		gsk := goalSkolems(j, o)
 		sc.prepare(o.PC, o.Goal)
 		for _, t := range conjuncts(o.Goal) {
 			sc.prepare(t)
@@ -94,8 +100,19 @@ func buildIncremental(j *Job, todo []*Obligation, timeoutMs int, dropQ bool) str
 		for _, t := range ins {
 			sc.prepare(t)
 		}
+		var scoped []*Term
+		if len(gsk) > 0 {
+			for _, fi := range skFacts {
+				if fi < o.NFact && !foreignSkolem(j, j.Facts[fi], gsk) {
+					scoped = append(scoped, sc.Pre(j.Facts[fi]))
+				}
+			}
+		}
+		scoped = append(scoped, sc.Pre(And(o.PC, Not(o.Goal))))
 		sc.Raw("(push 1)")
-		sc.Assert(And(o.PC, Not(o.Goal)))
+		for _, t := range scoped {
+			sc.AssertPre(t)
+		}
 		sc.Raw(fmt.Sprintf("(echo \"@@BEGIN %d\")", i))
 		sc.Raw("(check-sat)")
 		sc.Raw(fmt.Sprintf("(echo \"@@MODEL %d\")", i))
@@ -146,8 +163,12 @@ func buildSingleQ(j *Job, o *Obligation, timeoutMs int, withModel bool, dropQ bo
 	for _, l := range conjList(o.PC) {
 		pcLits[l.id] = true
 	}
+	gsk := goalSkolems(j, o)
 	for i := 0; i < o.NFact && i < len(j.Facts); i++ {
 		f := j.Facts[i]
+		if foreignSkolem(j, f, gsk) {
+			continue
+		}
 		if f.op == "=>" {
 			dead := false
 			for _, g := range conjList(f.args[0]) {
@@ -656,10 +677,15 @@ func buildSliced(j *Job, o *Obligation, timeoutMs int, depth int) string {
 		n = len(j.Facts)
 	}
 	keep := make([]bool, n)
+	gsk := goalSkolems(j, o)
+	foreign := make([]bool, n)
+	for i := 0; i < n; i++ {
+		foreign[i] = foreignSkolem(j, j.Facts[i], gsk)
+	}
 	for d := 0; d < depth; d++ {
 		added := map[string]bool{}
 		for i := 0; i < n; i++ {
-			if keep[i] {
+			if keep[i] || foreign[i] {
 				continue
 			}
 			f := j.Facts[i]
@@ -701,4 +727,51 @@ func buildSliced(j *Job, o *Obligation, timeoutMs int, depth int) string {
 	sc.Assert(And(o.PC, Not(o.Goal)))
 	sc.Raw("(check-sat)")
 	return sc.String()
+}
+
+// foreignSkolem: the fact mentions a skolem constant (introduced for the goal of one obligation) that does not occur
+// in this goal. Such a fact is an instance made for another obligation; it cannot contribute here because that
+// constant is unconstrained otherwise. Dropping it is sound (fewer hypotheses).
+func foreignSkolem(j *Job, f *Term, goalSk map[string]bool) bool {
+	if j.symMemo == nil {
+		j.symMemo = map[int]map[string]bool{}
+	}
+	if j.skMemo == nil {
+		j.skMemo = map[int][]string{}
+	}
+	sks, ok := j.skMemo[f.id]
+	if !ok {
+		for k := range termSymbols(f, j.symMemo) {
+			if strings.HasPrefix(k, "sk.") {
+				sks = append(sks, k)
+			}
+		}
+		j.skMemo[f.id] = sks
+	}
+	for _, k := range sks {
+		if !goalSk[k] {
+			return true
+		}
+	}
+	return false
+}
+
+func hasSkolem(j *Job, f *Term) bool {
+	foreignSkolem(j, f, nil)
+	return len(j.skMemo[f.id]) > 0
+}
+
+func goalSkolems(j *Job, o *Obligation) map[string]bool {
+	if j.symMemo == nil {
+		j.symMemo = map[int]map[string]bool{}
+	}
+	out := map[string]bool{}
+	for _, t := range []*Term{o.Goal, o.PC} {
+		for k := range termSymbols(t, j.symMemo) {
+			if strings.HasPrefix(k, "sk.") {
+				out[k] = true
+			}
+		}
+	}
+	return out
 }
